@@ -120,8 +120,8 @@ Record scfg := {
   sc_test : bool;              (* testNowMS != nil: step mode *)
   sc_dur : option Z;           (* Duration *)
   sc_chunked : bool;           (* cfg.ChunkDurS != nil: chunked transfer through cmafSource *)
-  sc_catchup_checks : bool;    (* the catch-up loop looks at lastSegNrToSend (false: the pinned code; true:
-                                  proposed_fixes/C16-catchup-duration.diff; read from the source by the harness) *)
+  sc_catchup_checks : bool;    (* the catch-up loop looks at lastSegNrToSend (true: the code since fix 07f3435;
+                                  false: the code before it; read from the source by the harness) *)
   sc_avail : Z -> res Z        (* calcSegmentAvailabilityTime(asset, refRep, nr, cfg) *)
 }.
 
@@ -270,9 +270,9 @@ Definition advance (cf : scfg) (st : sstate) : sstate :=
   end.
 
 (** The catch-up loop of real-time mode: while the next availability time is not in the future,
-    send that segment at once.  In the pinned code never marked last and without a look at
-    lastSegNrToSend ([sc_catchup_checks = false]); with the proposed repair the loop ends after the
-    last number and marks it. *)
+    send that segment at once.  Since fix 07f3435 the loop ends after the last number and marks it
+    ([sc_catchup_checks = true]); before, the segments were never marked last and the loop did not
+    look at lastSegNrToSend ([false]). *)
 Fixpoint catchup (cf : scfg) (clock : list Z) (st : sstate) : list (list mput) * sstate :=
   match clock with
   | [] => ([], st)
@@ -356,6 +356,23 @@ Definition session (cf : scfg) (nowMS : Z) (initres : list bool) (evs : list eve
   let '(inits, st0) := start cf nowMS initres in
   let '(gs, st1) := run cf st0 evs in (inits, gs, st1).
 
+(** Cancel (REST DELETE) while the init segment of representation [k] is being uploaded: that
+    upload and every later one fail on the cancelled context (the receiver has seen the inits up to
+    [k], none after), the init round ends with errors and the session ends before its main loop. *)
+Definition start_cancelled (cf : scfg) (k : Z) : list Z * sstate :=
+  (takeZ (k + 1) (repIdxs cf),
+   stopped {| ph := PRunning; nextNr := 0; lastToSend := -1; availT := 0 |}).
+
+(** A whole session, with an optional Cancel in the init phase. *)
+Definition session_c (cf : scfg) (nowMS : Z) (initres : list bool) (cancelInit : option Z) (evs : list event)
+  : list Z * list (list mput) * sstate :=
+  match cancelInit with
+  | None => session cf nowMS initres evs
+  | Some k =>
+    let '(inits, st0) := start_cancelled cf k in
+    let '(gs, st1) := run cf st0 evs in (inits, gs, st1)
+  end.
+
 (** The configuration with the code's own availability function. *)
 Definition mk_scfg_rc (rm : rounding) (cc : bool) (reps : list irep) (refr : rep) (loopMS segDurMS : Z) (c : tcfg)
            (timeline test : bool) (dur : option Z) (chunked : bool) : scfg :=
@@ -363,7 +380,7 @@ Definition mk_scfg_rc (rm : rounding) (cc : bool) (reps : list irep) (refr : rep
      sc_timeline := timeline; sc_test := test; sc_dur := dur; sc_chunked := chunked; sc_catchup_checks := cc;
      sc_avail := availMS_float_r rm refr loopMS c |}.
 Definition mk_scfg_r (rm : rounding) := mk_scfg_rc rm false.
-Definition mk_scfg := mk_scfg_r RCeil.
+Definition mk_scfg := mk_scfg_rc RCeil true.
 
 (** * 3. The cmafSource hand-over *)
 
